@@ -65,6 +65,11 @@ def gen_probe_project(rng, binp, tries=40, opts=None):
                                                    proj.A([f"[{l}] full", proj.F("100.0")]), proj.A([f"[{l}] out of range"])])])
                 tree["o"].append(["ovf32", proj.A(["f32", proj.A([f"[{l}] low", "..2.5"]), proj.A([f"[{l}] one", "1.0", "2.5"]), proj.A([f"[{l}] rest {{{{ count }}}}"])])])
                 tree["o"].append(["ovi32", proj.A(["i32", proj.A([f"[{l}] few", "0..10"]), proj.A([f"[{l}] five", proj.U(5), proj.U(10)]), proj.A([f"[{l}] rest"])])])
+                # exact float values of small magnitude (adjacent floats are closer than EPSILON there), none shadowed by an earlier branch
+                tree["o"].append(["exf64", proj.A(["f64", proj.A([f"[{l}] zero", proj.F("0.0")]), proj.A([f"[{l}] half", "0.5", "-0.25"]), proj.A([f"[{l}] tenth", "0.1"]),
+                                                   proj.A([f"[{l}] rest {{{{ count }}}}"])])])
+                tree["o"].append(["exf32", proj.A(["f32", proj.A([f"[{l}] zero", "0.0"]), proj.A([f"[{l}] half", proj.F("0.5")]), proj.A([f"[{l}] eighth", "0.125 | -0.75"]),
+                                                   proj.A([f"[{l}] rest {{{{ count }}}}"])])])
                 # more than 16 alternatives (nested `EitherOf` wrappers in the view back-end), the last ones of different shapes
                 words = ["zero", "one", "two", "three", "four", "five", "six", "seven", "eight", "nine", "ten", "eleven", "twelve", "thirteen", "fourteen", "fifteen", "sixteen"]
                 tree["o"].append(["ov18", proj.A(["u8"] + [proj.A([f"[{l}] {w}" if k != 16 else f"<b>[{l}] {w}</b>", proj.U(k)]) for k, w in enumerate(words)]
@@ -105,6 +110,8 @@ def gen_probe_project(rng, binp, tries=40, opts=None):
                 put("fmtnum2", f"[{l}] r={{{{ num, number(grouping_strategy: never) }}}} <b>{{{{ num, number(grouping_strategy: min2) }}}}</b> {{{{ num }}}}")
                 put("fmtcur", f"[{l}] {{{{ amount, currency(currency_code: EUR) }}}} / {{{{ amount, currency(width: narrow; currency_code: USD) }}}}")
                 put("fmtdate", f"[{l}] {{{{ d, date(date_length: long) }}}} {{{{ d, date }}}}")
+                put("fmtdt", f"[{l}] {{{{ dt, datetime(date_length: short; time_length: short) }}}} | {{{{ dt, datetime(date_length: long; time_length: medium) }}}}")
+                put("fmttime", f"[{l}] {{{{ tm, time(time_length: short) }}}} <i>{{{{ tm, time(time_length: medium) }}}}</i>")
                 put("fmtlist", f"[{l}] {{{{ items, list(list_type: or) }}}} | {{{{ items, list(list_style: short) }}}}")
                 put("fmtgroup", proj.O([("inner", f"[{l}] in-group {{{{ num, number(grouping_strategy: always) }}}}")]))
                 if rng.chance(2, 3) or l == p["default"]:
@@ -231,7 +238,8 @@ def count_display(lit):
     return dec_text(__import__("fractions").Fraction(r)) if "e" in r else r
 
 
-NUMS = [("7.0f64", "7"), ("2000.5f64", "2000.5"), ("-12345.25f64", "-12345.25")]
+# (values with zero, one and more than two fraction digits, a negative one: every flavour must print the same digits)
+NUMS = [("2000.5f64", "2000.5"), ("-12345.125f64", "-12345.125"), ("7.0f64", "7")]
 ICU = "leptos_i18n::reexports::icu::calendar::"
 
 
@@ -490,7 +498,7 @@ def _error_signature(err):
     return m.group(1) or m.group(2)[:60]
 
 
-def explain_compile_failure(ctx, dirp, q, probes, err, sig_prefix, budget=18):
+def explain_compile_failure(ctx, dirp, q, probes, err, sig_prefix, budget=18, features=None):
     """a probe crate that does not compile: find the input that is to blame.  (1) the error is located in a probe expression: that
     accessor call is the failing input; (2) the error is inside the `load_locales!` expansion: delta-debug the top-level keys of the
     translation files (the same keys removed from every locale) down to a small set that still fails with the same rustc error.
@@ -526,7 +534,7 @@ def explain_compile_failure(ctx, dirp, q, probes, err, sig_prefix, budget=18):
 
     def fails(keep):
         tries[0] += 1
-        write_crate(dirp, dict(q, files=files_for(keep)), [])
+        write_crate(dirp, dict(q, files=files_for(keep)), [], features=features)
         rc, out, e = run(["cargo", "check", "--offline", "--target-dir", PROBE_TARGET], cwd=dirp, timeout=1800)
         return rc != 0 and _error_signature(e) == sig, e
     ok, e0 = fails(set(keys))
@@ -577,8 +585,35 @@ def run_crate(ctx, dirp, timeout=3600):
     return rc, out, err
 
 
+PRIORITY_KEYS = ["fmtnum2", "fmtnum", "fmtcur", "fmtdate", "fmtdt", "fmttime", "fmtlist", "inner", "fmtpl", "blanks", "nestcomp", "sharedpl", "sharednth", "nestcomp3",
+                 "exf64", "exf32", "ovf64", "ovf32", "ovi32", "ov18", "nth", "amount", "longkey", "longkey2", "litu", "liti", "litf", "litb"]
+
+
+DYN_SSR_FEATURES = ["json_files", "icu_compiled_data", "interpolate_display", "plurals", "format_datetime", "format_nums", "format_list", "format_currency",
+                    "dynamic_load", "ssr"]
+
+
+def compile_only_probe(ctx, rng, features, sig_prefix, opts=None, label="dynamic_load+ssr"):
+    """the module `load_locales!` generates for a generated project must compile in another feature set of the library as well (no accessor
+    is called: the generated `match`es over the locales, the builders and the string tables are type-checked by rustc)"""
+    binp = build_parser(ctx)
+    if binp is None:
+        return
+    p, q, res = gen_probe_project(rng, binp, opts=opts)
+    dirp = os.path.join(WORK, f"probe_{ctx.pid}_features")
+    write_crate(dirp, q, [], features=features)
+    rc, out, err = run(["cargo", "check", "--offline", "--target-dir", PROBE_TARGET], cwd=dirp, timeout=3600)
+    ctx.seen({"compile_only": label, "files": q["files"][0][1][:200]}, nontrivial=True)
+    ctx.count("compile_only:" + label)
+    if rc != 0:
+        if not explain_compile_failure(ctx, dirp, q, [], err, sig_prefix + ":" + label, features=features):
+            errs = "\n".join(l for l in err.split("\n") if l.startswith("error"))[:1500]
+            ctx.broken.append({"kind": "correspondence", "name": "X/probe crate does not compile (" + label + ")", "detail": {"errors": errs or err[-1500:], "files": q["files"]}})
+    shutil.rmtree(dirp, ignore_errors=True)
+
+
 def run_render_probe(ctx, rng, n_crates=1, flavours=("string", "display", "view"), opts=None, sig_prefix="render", per_key=3,
-                     check_groups=False):
+                     check_groups=False, cap=900, prio_share=0.5):
     """generate projects, compile the probe crates against /repo, compare every rendered text with the denotation"""
     binp = build_parser(ctx)
     if binp is None:
@@ -587,11 +622,28 @@ def run_render_probe(ctx, rng, n_crates=1, flavours=("string", "display", "view"
     for c in range(n_crates):
         p, q, res = gen_probe_project(rng, binp, opts=opts)
         probes = build_probes(rng, p, res, res["oracle"], per_key=per_key, flavours=flavours)
-        if len(probes) > 900:
-            # keep whole groups (all flavours of one key x locale x arguments), chosen at random over the whole project
+        if len(probes) > cap:
+            # keep whole groups (all flavours of one key x locale x arguments).  Not left to luck: the groups holding a probe with swapped
+            # locals, then one group per (locale, key) of the keys every project is given on purpose (PRIORITY_KEYS: formatted, blank-separated,
+            # nested components, shared plural arms, overlapping ranges, literals, long keys) — up to `prio_share` of the budget, in the order of the list —, the rest at random
             groups_all = sorted({pr["group"] for pr in probes}, key=str)
             per_group = max(1, len(probes) // len(groups_all))
-            keep = set(map(str, rng.sample(groups_all, min(len(groups_all), max(1, 900 // per_group)))))
+            n_keep = min(len(groups_all), max(1, cap // per_group))
+            swapped = sorted({pr["group"] for pr in probes if pr["expr"].startswith("{ let ")}, key=str)
+            chosen = rng.sample(swapped, min(len(swapped), 6))
+            seen_lk = {(g[0], g[1], g[2]) for g in chosen}
+            prio = rng.shuffle([g for g in groups_all if g[2] and g[2][-1] in PRIORITY_KEYS])
+            prio.sort(key=lambda g: PRIORITY_KEYS.index(g[2][-1]))        # (stable: random within one key, the list's order between keys)
+            for g in prio:
+                if len(chosen) >= int(n_keep * prio_share):
+                    break
+                if (g[0], g[1], g[2]) not in seen_lk:
+                    seen_lk.add((g[0], g[1], g[2]))
+                    chosen.append(g)
+            have = set(map(str, chosen))
+            rest = [g for g in groups_all if str(g) not in have]
+            chosen += rng.sample(rest, min(len(rest), max(0, n_keep - len(chosen))))
+            keep = set(map(str, chosen))
             probes = [pr for pr in probes if str(pr["group"]) in keep]
             for k, pr in enumerate(probes):
                 pr["id"] = k
